@@ -233,9 +233,10 @@ func explain(kind string, ci curveInfo, in []byte) []string {
 	return rs
 }
 
-// lenienceCause maps (decoder, leniency) to the root cause in the code; only
-// the combinations that the unchanged code is known to have get a stable name
-// (known_findings.json matches on it), everything else is `unexpected:...`.
+// lenienceCause maps (decoder, leniency) to the root cause in the code.  The
+// named causes are the leniencies /repo had before the repairs d9a1171,
+// 2eb87d5 and 217fb4c (known_findings.json lists them as fixed: nothing is
+// suppressed); since then EVERY accepted non-canonical input is a violation.
 func lenienceCause(decoder, why string) string {
 	readerBased := decoder == "R1" || decoder == "GS" || decoder == "ES"
 	switch {
